@@ -20,6 +20,6 @@ def run(j):
         line=f"{n} ERROR {e} {r.stdout[-200:]} {r.stderr[-200:]}"
     print(line, flush=True)
     return line
-with ThreadPoolExecutor(3) as ex:
+with ThreadPoolExecutor(4) as ex:
     list(ex.map(run, jobs))
 print('ALLDONE')
